@@ -346,6 +346,11 @@ func (c *Conn) SetDeadline(t time.Time) error {
 }
 
 func (c *Conn) SetReadDeadline(t time.Time) error {
+	if t.IsZero() {
+		// clearing a deadline is what a connection's new owner does when it takes over (a hand-over between goroutines):
+		// a schedule point, so that the other side of the hand-over may run first
+		c.yield("conn.cleardeadline")
+	}
 	c.dmu.Lock()
 	c.rdl = t
 	c.dmu.Unlock()
